@@ -137,13 +137,15 @@ def _scenario(args):
                 with open(paths[fkey], 'wb') as f:
                     f.write(OLD[fkey])
             argv = [['../nothere.asm' if t == 'missing-input' else (main if rng.random() < 0.5 else '../main.asm')]]
+            slash_form = t == 'out-nodir' and rng.random() < 0.4
             if t == 'out-nodir':
-                paths['out'] = os.path.join(cwd, 'nodir', outname)
+                # a file in a directory that does not exist - or (slash_form) the name of such a directory itself, `-o nodir/`
+                paths['out'] = os.path.join(cwd, 'nodir', '' if slash_form else outname)
                 paths['hex'] = paths['out'] + '.hex'
             if t == 'lab-nodir':
                 paths['lab'] = os.path.join(cwd, 'nodir', 'out.lab')
             if not sc['defout']:
-                argv += [['-o', os.path.relpath(paths['out'], cwd)]]
+                argv += [['-o', 'nodir/' if slash_form else os.path.relpath(paths['out'], cwd)]]
             if sc['labels']:
                 argv += [['-l', os.path.relpath(paths['lab'], cwd)]]
             if sc['compress']:
